@@ -72,7 +72,7 @@ def dump(nd, sp=True):
         out.append("(")
         out.append(x.kind)
         out.extend(str(v) for v in (x.sp if sp else (0, 0, 0, 0)))
-        out.extend(x.fields)
+        out.extend(x.fields if x.kind != "FootnoteReference" else ["?", "0", "0"])
         for c in x.ch:
             go(c)
         out.append(")")
@@ -100,6 +100,17 @@ def strip_sp(trees):
         else:
             i += 1
     return " ".join(out)
+
+
+def mask_fnrefs(trees):
+    """the numbering of resolved footnote references belongs to the document-wide pass (Model/Footnotes.v)"""
+    if "FootnoteReference" not in trees:
+        return trees
+    toks = trees.split(" ")
+    for i, t in enumerate(toks):
+        if t == "FootnoteReference":
+            toks[i + 5:i + 8] = ["?", "0", "0"]
+    return " ".join(toks)
 
 
 def walk(nd):
@@ -160,11 +171,21 @@ def model_lines(opts, md, ans, refs=()):
     maxref = max(len(md), 100000)
     reftoks = " ".join(f"{hx(l)} {hx(u)} {hx(t)}" for (l, u, t) in refs)
     out = []
+    fnon = "1" if "footnotes" in opts.split(",") else "0"
+    defs = []
+    st = [blocks]
+    while st:
+        x = st.pop()
+        if x.kind == "FootnoteDefinition":
+            defs.append(x.fields[0])
+        else:
+            st.extend(reversed(x.ch))
+    deftoks = f"{fnon} {len(defs)}" + "".join(" " + d for d in defs)
     for b in walk(blocks):
         if b.kind not in LEAF:
             continue
         lo = b.extra.get("L", "-")
-        line = f"inl {opts} {b.extra.get('C', '-')} {lo} {b.sp[0]} {maxref} 0 {tl_context(b)} {len(refs)}{(' ' + reftoks) if refs else ''} {' '.join(utoks)}"
+        line = f"inl {opts} {b.extra.get('C', '-')} {lo} {b.sp[0]} {maxref} 0 {tl_context(b)} {deftoks} {len(refs)}{(' ' + reftoks) if refs else ''} {' '.join(utoks)}"
         out.append((b, partners.get(key_of(b)), line))
     return final, blocks, out
 
@@ -194,6 +215,7 @@ def compare(b, partner, m, final):
             return "mismatch", f"task-list effect: model {eff}, implementation parent {pk} {partner.parent.fields} start column {partner.sp[1]}"
     elif pk == "TaskItem" and b.parent is not None and b.parent.kind == "Item" and b.ix == 0:
         return "mismatch", "implementation made a TaskItem, the model reports no task-list effect"
+    post = mask_fnrefs(post)
     if post == want:
         return "agree", ""
     if strip_sp(post) == strip_sp(want):
